@@ -382,7 +382,7 @@ func (p *Prog) Render() map[string]string {
 }
 
 func (p *Prog) renderTask(b *strings.Builder, t *Task) {
-	fmt.Fprintf(b, "  %s:\n", t.Name)
+	fmt.Fprintf(b, "  %s:\n", yq(t.Name))
 	if t.Run != Always {
 		fmt.Fprintf(b, "    run: %s\n", t.Run)
 	}
